@@ -160,59 +160,100 @@ func pieces(c *hc.Ctx) {
 			fail(c, "panic:AppliesTo", msg, map[string]any{"selector": fmt.Sprint(sel), "stack": fmt.Sprint(stack)})
 			continue
 		}
-		var sb strings.Builder
-		fmt.Fprintf(&sb, "SEL %d", ns)
-		for _, nd := range sel {
-			child := nd.Op == '>'
-			typ := nd.Typ
-			if nd.Op != ' ' && nd.Op != '>' {
-				// an unsupported combinator makes the whole selector fail: in the lexed form of the model
-				// that is a compound that can match nothing
-				typ = "\x00unsupported"
-			}
-			fmt.Fprintf(&sb, " %s %s %d", hc.B(child), tok(typ), len(nd.Attrs))
-			for _, a := range nd.Attrs {
-				op := 9
-				switch a.Op {
-				case 0:
-					op = 0
-				case '=':
-					op = 1
-				case '~':
-					op = 2
-				case '|':
-					op = 3
-				}
-				fmt.Fprintf(&sb, " %d %s %s", op, tok(a.Attr), tok(a.Val))
-			}
-		}
-		fmt.Fprintf(&sb, " %d", depth)
-		for _, e := range stack {
-			keys := []string{}
-			for _, k := range []string{"class", "id", "fill"} {
-				if _, ok := e.Attrs[k]; ok {
-					keys = append(keys, k)
-				}
-			}
-			fmt.Fprintf(&sb, " %s %d", e.Tag, len(keys))
-			for _, k := range keys {
-				sb.WriteString(" " + k)
-			}
-			fmt.Fprintf(&sb, " %d", len(keys))
-			for _, k := range keys {
-				sb.WriteString(" " + k + " " + tok(strings.ReplaceAll(e.Attrs[k], " ", "+"))) // spaces cannot travel in a token
-			}
-			fmt.Fprintf(&sb, " %d", len(keys))
-			for _, k := range keys {
-				w := strings.Split(e.Attrs[k], " ")
-				fmt.Fprintf(&sb, " %s %d", k, len(w))
-				for _, x := range w {
-					sb.WriteString(" " + tok(x))
-				}
-			}
-		}
-		c.Case(sb.String(), "=", hc.B(got))
+		line := fmt.Sprintf("SEL %d%s%s", ns, selProto(sel), stackProto(stack))
+		c.Case(line, "=", hc.B(got))
 		c.Count(fmt.Sprintf("SEL:nodes=%d:%v", ns, got))
-		c.Distinct(sb.String())
+		c.Distinct(line)
+		// cssRule.specificity of a rule with this selector and one or two more (type / class / id variants)
+		rule := [][]canvas.VerifSelNode{sel}
+		for c.Chance(0.5) && len(rule) < 3 {
+			top := stack[depth-1]
+			extra := []canvas.VerifSelNode{{Op: ' ', Typ: []string{top.Tag, "*", "", "g"}[c.Intn(4)]}}
+			if c.Bool() {
+				extra[0].Attrs = append(extra[0].Attrs, canvas.VerifAttrSel{Op: '~', Attr: "class", Val: []string{"a", "b"}[c.Intn(2)]})
+			}
+			if c.Chance(0.3) {
+				extra[0].Attrs = append(extra[0].Attrs, canvas.VerifAttrSel{Op: '=', Attr: "id", Val: []string{"x", "y"}[c.Intn(2)]})
+			}
+			if c.Chance(0.3) {
+				extra = append([]canvas.VerifSelNode{{Op: ' ', Typ: stack[0].Tag}}, extra...)
+			}
+			rule = append(rule, extra)
+		}
+		var spec int
+		if msg := hc.Try(func() { spec = canvas.VerifRuleSpecificity(rule, stack) }); msg != "" {
+			fail(c, "panic:specificity", msg, map[string]any{"rule": fmt.Sprint(rule), "stack": fmt.Sprint(stack)})
+			continue
+		}
+		sl := fmt.Sprintf("SPEC %d", len(rule))
+		for _, r := range rule {
+			sl += fmt.Sprintf(" %d%s", len(r), selProto(r))
+		}
+		sl += stackProto(stack)
+		c.Case(sl, "=", fmt.Sprint(spec))
+		if spec < 0 {
+			c.Count("SPEC:no-match")
+		} else {
+			c.Count(fmt.Sprintf("SPEC:ids=%d:classes=%d:types=%d", spec>>20, (spec>>10)&1023, spec&1023))
+		}
 	}
+}
+
+func selProto(sel []canvas.VerifSelNode) string {
+	var sb strings.Builder
+	for _, nd := range sel {
+		child := nd.Op == '>'
+		typ := nd.Typ
+		if nd.Op != ' ' && nd.Op != '>' {
+			// an unsupported combinator makes the whole selector fail: in the lexed form of the model
+			// that is a compound that can match nothing
+			typ = "\x00unsupported"
+		}
+		fmt.Fprintf(&sb, " %s %s %d", hc.B(child), tok(typ), len(nd.Attrs))
+		for _, a := range nd.Attrs {
+			op := 9
+			switch a.Op {
+			case 0:
+				op = 0
+			case '=':
+				op = 1
+			case '~':
+				op = 2
+			case '|':
+				op = 3
+			}
+			fmt.Fprintf(&sb, " %d %s %s", op, tok(a.Attr), tok(a.Val))
+		}
+	}
+	return sb.String()
+}
+
+func stackProto(stack []canvas.VerifElem) string {
+	var sb strings.Builder
+	fmt.Fprintf(&sb, " %d", len(stack))
+	for _, e := range stack {
+		keys := []string{}
+		for _, k := range []string{"class", "id", "fill"} {
+			if _, ok := e.Attrs[k]; ok {
+				keys = append(keys, k)
+			}
+		}
+		fmt.Fprintf(&sb, " %s %d", e.Tag, len(keys))
+		for _, k := range keys {
+			sb.WriteString(" " + k)
+		}
+		fmt.Fprintf(&sb, " %d", len(keys))
+		for _, k := range keys {
+			sb.WriteString(" " + k + " " + tok(strings.ReplaceAll(e.Attrs[k], " ", "+"))) // spaces cannot travel in a token
+		}
+		fmt.Fprintf(&sb, " %d", len(keys))
+		for _, k := range keys {
+			w := strings.Split(e.Attrs[k], " ")
+			fmt.Fprintf(&sb, " %s %d", k, len(w))
+			for _, x := range w {
+				sb.WriteString(" " + tok(x))
+			}
+		}
+	}
+	return sb.String()
 }
